@@ -9,7 +9,8 @@ import Driver.Util
                                                            not-formatted:<clause> when isFormatted out fails)
     lexonly <hex input>
       -> sig=<n> com=<k> attr=<i:lead:trail,...> empties=<e> seps=<s> angles=<a> colons=<c>
-  The driver accepts a run iff  validFormat inp out ∧ isFormatted out ∧ out2 = out.
+  The driver accepts a run iff  validFormatFile inp out ∧ isFormatted out ∧ out2 = out
+  (validFormatFile = validFormat behind the lexer's discarding of a leading UTF-8 byte order mark).
   The facts after `valid` are derived from the INPUT by the lexer / role automaton / header
   canonicalisation model (only <n out> is read off the output); the harness prints the same
   facts read off protocompile's AST of the input and of the real formatter's output.
@@ -71,22 +72,23 @@ def handle : List String → String
   | ["lexonly", a] =>
     match hexDecode a with
     | some i =>
-      let ti := lex i.toList
+      let ti := lex (stripBOM i.toList)
       let si := sig ti
       let rs := annotate si
       s!"sig={si.length} com={(comments ti).length} attr={attrSig (decorate ti)} empties={countRole rs .dropEmpty} seps={countRole rs .dropSep} angles={countRole rs .toOpenBrace + countRole rs .toCloseBrace} colons={countRole rs .colonAfter}"
     | none => "bad-op"
   | ["dbg", a, b] =>
     match hexDecode a, hexDecode b with
-    | some i, some o => dbg i.toList o.toList
+    | some i, some o => dbg (stripBOM i.toList) o.toList
     | _, _ => "bad-op"
   | ["fmt", a, b, c] =>
     match hexDecode a, hexDecode b, hexDecode c with
     | some i, some o, some o2 =>
-      let inp := i.toList
+      -- newLexer consumes a leading byte order mark: validFormatFile inp out = validFormat (stripBOM inp) out
+      let inp := stripBOM i.toList
       let out := o.toList
       if o2 != o then "invalid:not-idempotent"
-      else if !validFormat inp out then "invalid:" ++ failing inp out
+      else if !validFormatFile i.toList out then "invalid:" ++ failing inp out
       else if !isFormatted out then "invalid:not-formatted:" ++ notFormatted out
       else
         let ti := lex inp
